@@ -63,6 +63,10 @@ class Resolver:
             return ["int", str(b), e]
         if n in ALIAS:
             return ALIAS[n].split()
+        if n in PRIMS and getattr(self, "expand_prims", False):
+            x = self.expand_prim(n, target)
+            if x is not None:
+                return x
         if n in PRIMS:
             return ["prim", n + ("_" + (str(target) if isinstance(target, int) else "_".join(map(str, target))) if n in ("AuraMask", "AddonArray", "UpdateMask") else "")]
         o = self.lookup(n, target)
@@ -85,6 +89,29 @@ class Resolver:
         if o["kind"] == "struct":
             return ["struct"] + self.members(o["members"], target, {}, [0]) + ["end"]
         raise Unsupported(f"type {n} is a {o['kind']}")
+
+    # built-in types whose wire form IS expressible in the closed syntax (hand-written codecs under wow_world_messages/src/manual and
+    # util): a bit mask followed by one fixed-size payload per set bit; an id followed by a member that exists iff the id is not 0.
+    # Used only for the additional "#x" variant of a container (see containers()).
+    MASK_SHAPES = {"AuraMask": {(1, 12): (4, 32, 2), (2, 4, 3): (8, 64, 3), (3, 3, 5): (8, 64, 5)}, "EnchantMask": (2, 16, 2), "CacheMask": (4, 32, 4)}
+
+    def expand_prim(self, n, target):
+        if n in self.MASK_SHAPES:
+            sh = self.MASK_SHAPES[n]
+            if isinstance(sh, dict):
+                sh = sh.get(tuple(target) if not isinstance(target, int) else target)
+            if sh is None:
+                return None
+            mb, slots, pb = sh
+            out = ["struct", "f", "0", "p", "int", str(mb), "le"]
+            for i in range(slots):
+                out += ["if", "0", "1", "and", "1", str(1 << i), "f", str(i + 1), "p", "int", str(pb), "le", "end", "end"]
+            return out + ["end"]
+        if n == "NamedGuid":
+            return ["struct", "f", "0", "p", "int", "8", "le", "if", "0", "1", "ne", "0", "f", "1", "p", "cstring", "end", "end", "end"]
+        if n == "VariableItemRandomProperty":
+            return ["struct", "f", "0", "p", "int", "4", "le", "if", "0", "1", "ne", "0", "f", "1", "p", "int", "4", "le", "end", "end", "end"]
+        return None
 
     def definer_of_var(self, ms_all, var, target):
         """declared type object of variable `var` in the member list (searching nested ifs)"""
@@ -210,6 +237,18 @@ class Resolver:
                 except Unsupported as e:
                     d["unsupported"] = str(e)
                 yield d
+                if "tokens" in d and "prim" in d["tokens"]:
+                    # second variant with the expressible built-in types written out in the closed syntax (key suffix #x): the same wire
+                    # format, now inside the Lean semantics (round-trip and bounds theorems apply to it as to any closed program)
+                    self.expand_prims = True
+                    try:
+                        toks = self.members(o["members"], tv, {}, [0]) + ["end"]
+                        if toks != d["tokens"]:
+                            yield dict(d, key=d["key"] + "#x", tokens=toks, expanded=True)
+                    except Unsupported:
+                        pass
+                    finally:
+                        self.expand_prims = False
 
 
 def write_corpus(path):
